@@ -3,7 +3,7 @@ import LunarVerif.Model.C15Tree
 import LunarVerif.Spec.C15
 /-! Driver for C15: `lvdriver_c15 run` (model answers) / `lvdriver_c15 judge` (Spec on the implementation's answers).
 
-ops:  cfg thr=<n> | known u=<enc> | rec ts= dur= tot= st= m= u= i= c= int= | run cuts=<i,j,..|-> restarts=<i,..|-> [faildumps=<i,..|->]
+ops:  cfg thr=<n> | known u=<enc> | rec ts= dur= tot= st= m= u= i= c= int= | run cuts=<i,j,..|-> restarts=<i,..|-> [faildumps=<i,..|->] [ticks=<i,..|->] [reloads=<i,..|->]
 answer of `run`:  full=<0|1> fail=<k> avg=ok  ep <key> <count> <minS> <maxS> <st> ...  ce <tag> <key> ... it <type> <ver> <tsS> ...
 -/
 open LunarVerif LunarVerif.Proto LunarVerif.C15
@@ -26,17 +26,20 @@ def parseRec (ws : List String) : Option Rec := do
 
 /-- cut the stream into batches / restarts; `cuts` non-decreasing positions in 0..n; the flush of the batch that
     ends at a position listed in `faildumps` fails -/
-def segsOf (recs : List Rec) (cuts restarts faildumps : List Nat) : List Seg :=
-  let rec go (prev : Nat) (cuts restarts faildumps : List Nat) : List Seg :=
+def segsOf (recs : List Rec) (cuts restarts faildumps reloads : List Nat) : List Seg :=
+  let rec go (prev : Nat) (cuts restarts faildumps reloads : List Nat) : List Seg :=
     match cuts with
     | [] => [Seg.batch (recs.drop prev)]
     | c :: cs =>
       let rs := (recs.drop prev).take (c - prev)
       let b := if faildumps.contains c then Seg.batchNoDump rs else Seg.batch rs
       let fd := faildumps.erase c
-      if restarts.contains c then b :: Seg.restart :: go c cs (restarts.erase c) fd
-      else b :: go c cs restarts fd
-  go 0 cuts restarts faildumps
+      -- a refresh tick that found the policies file CHANGED: the tree is rebuilt from the known endpoints
+      let rl := if reloads.contains c then [Seg.treeReset] else []
+      let rls := reloads.erase c
+      if restarts.contains c then b :: Seg.restart :: rl ++ go c cs (restarts.erase c) fd rls
+      else b :: rl ++ go c cs restarts fd rls
+  go 0 cuts restarts faildumps reloads
 
 def sortS (l : List String) : List String := l.mergeSort (fun a b => decide (a ≤ b))
 
@@ -80,7 +83,8 @@ def runThreaded (t0 : Tree) (segs : List Seg) : Persisted × Bool :=
       if rs.isEmpty then s else
       let (t, a) := stepT s.1.1 s.1.2 rs
       ((t, a), s.2)
-    | Seg.restart => (({ t0 with nondet := s.1.1.nondet }, restore s.2), s.2))
+    | Seg.restart => (({ t0 with nondet := s.1.1.nondet }, restore s.2), s.2)
+    | Seg.treeReset => (({ t0 with nondet := s.1.1.nondet }, s.1.2), s.2))
     ((t0, ({} : Agg)), persist {})
   (r.2, r.1.1.nondet)
 
@@ -104,11 +108,12 @@ def runPure (t0 : Tree) (segs : List Seg) : Persisted × List String :=
       let urls := (external rs).map (·.url)
       let bad := if rs.isEmpty then [] else lawCheck s.1.tree s.2.1 urls
       (stepNoDump treeNormaliser s.1 rs, s.2.1 ++ urls, s.2.2 ++ bad)
-    | Seg.restart => ({ tree := t0, agg := restore s.1.file, file := s.1.file }, [], s.2.2)) (St.init t0, [], [])
+    | Seg.restart => ({ tree := t0, agg := restore s.1.file, file := s.1.file }, [], s.2.2)
+    | Seg.treeReset => ({ s.1 with tree := t0 }, [], s.2.2)) (St.init t0, [], [])
   -- L2 (observational): the lineage tree and the one-shot tree normalise every seen URL alike
   let l2 := match r.2.1 with
     | [] => true
-    | seen => if segs.any (fun s => match s with | Seg.restart => true | _ => false) then true
+    | seen => if segs.any (fun s => match s with | Seg.restart => true | Seg.treeReset => true | _ => false) then true
               else let one := treeNormaliser.learn t0 seen
                    seen.all fun u => treeNormaliser.norm one u == treeNormaliser.norm r.1.tree u
   (r.1.file, r.2.2 ++ (if l2 then [] else ["L2"]))
@@ -130,14 +135,15 @@ def runStep (s : RunSt) (line : String) : RunSt × String :=
     | none => (s, "bad-op")
   | "run" :: ws =>
     match (kv ws "cuts").bind parseList, (kv ws "restarts").bind parseList,
-          ((kv ws "faildumps").getD "-" |> parseList) with
-    | some cuts, some restarts, some faildumps =>
+          ((kv ws "faildumps").getD "-" |> parseList), ((kv ws "reloads").getD "-" |> parseList) with
+    | some cuts, some restarts, some faildumps, some reloads =>
       match buildTree s.thr s.known with
       | none => (s, "err:build")
       | some t0 =>
         let recs := s.recs.reverse
-        let segs := segsOf recs cuts restarts faildumps
-        let full := restarts.isEmpty
+        let segs := segsOf recs cuts restarts faildumps reloads
+        -- `ticks=` (refresh ticks that find the policies file untouched) change nothing and are ignored here
+        let full := restarts.isEmpty && reloads.isEmpty
         let (file, nondet) := runThreaded t0 segs
         let (filep, laws) := runPure t0 segs
         -- `Run` has no error path left in the model (a refused URL is skipped): fail=0
@@ -150,7 +156,7 @@ def runStep (s : RunSt) (line : String) : RunSt × String :=
           (if laws.isEmpty then "" else " LAW-FAIL:" ++ ",".intercalate (dedupS laws))
         -- with restarts only the per-method totals are reported; those never depend on map order
         (s, if nondet && full then "nondet" else main ++ tail)
-    | _, _, _ => (s, "bad-op")
+    | _, _, _, _ => (s, "bad-op")
   | _ => (s, "bad-op")
 
 /-! ### judge -/
